@@ -272,6 +272,23 @@ example :
   rw [← EngineT.MWorld.run'_eq, ← EngineT.World.run'_eq]
   decide +kernel
 
+-- non-vacuity of `setWidths`: between two computes of one engine the CALLER assigns `node.width = 0` to the first two node objects
+-- of list 0; the widths in the store change (nothing else of the history does) and the second compute is recorded as well.
+def rewidthOps : List EngineT.MOp :=
+  [.newEngine staleO1, .freshNodes permExL2, .compute, .setWidths 0 [0, 0], .compute]
+
+example :
+    ((EngineT.MWorld.run (rewidthOps.take 3)).created[0]?.getD []).map
+        (fun i => (EngineT.get (EngineT.MWorld.run (rewidthOps.take 3)).store i).width) = permExL2.map (·.width) ∧
+    ((EngineT.MWorld.run rewidthOps).created[0]?.getD []).map
+        (fun i => (EngineT.get (EngineT.MWorld.run rewidthOps).store i).width) = [0, 0] ++ (permExL2.map (·.width)).drop 2 ∧
+    (EngineT.get (EngineT.MWorld.run rewidthOps).store 0).width = 0 ∧
+    (EngineT.get (EngineT.MWorld.run rewidthOps).store 1).width = 0 ∧
+    (EngineT.MWorld.run rewidthOps).outs.length = 2 ∧
+    (EngineT.MWorld.run rewidthOps).outs.map (·.1) = [0, 0] := by
+  rw [← EngineT.MWorld.run'_eq]
+  decide +kernel
+
 -- the theorem applies to that state (no evaluation needed: every engine of every reachable world is in a good state)
 example :
     EngineT.observe (EngineT.computeT ((EngineT.MWorld.run interOps).engineAt 0) (EngineT.MWorld.run interOps).store).2
